@@ -413,6 +413,15 @@ def get_intersecting_triangles(vertices, triangles, r=None, r_factor=1.5, eps=1e
     if r_factor < 1:  # pragma: no cover
         raise ValueError("r_factor must be greater or equal to 1")
 
+    # work around the mesh center in units of the mesh size: the tolerance `eps` and the single
+    # precision used below then act the same way in every length unit and at every position
+    vertices = np.asarray(vertices, dtype=float)
+    vertices = vertices - vertices.mean(axis=0)
+    size = np.abs(vertices).max()
+    if size > 0:
+        vertices = vertices / size
+        if r is not None:
+            r = r / size
     vertices = vertices.astype(np.float32)
     facets = vertices[triangles]
     centers = np.mean(facets, axis=1)
